@@ -28,6 +28,7 @@ fn family(name: &str, n: usize) -> String {
         "branches" => { let mut s = String::from("C"); for _ in 1..n { s.push_str("(C)") } s }
         "comb" => { let mut s = String::from("C"); for _ in 0..n / 4 { s.push_str("C(C)C") } s }
         "comb_stereo" => { let mut s = String::from("C"); for _ in 0..n / 3 { s.push_str("[C@H](O)C") } s }
+        "deep" => { let d = n; let mut s = String::from("C"); for _ in 0..d { s.push_str("(C") } for _ in 0..d { s.push(')') } s }
         "brackets" => "[13CH2]".repeat(n),
         "nested8" => { let unit = "C(C(C(C(C(C(C(C(C))))))))"; unit.repeat(n / 9) }
         _ => panic!("unknown family"),
